@@ -7,6 +7,7 @@ import time
 
 from . import lib
 
+STUB_INCRATE = "pub fn run(_rng: &mut crate::Rng, _out: &mut Vec<String>) {}\n"
 STUB = "pub fn cases() -> Vec<Box<dyn crate::Case>> {\n    Vec::new()\n}\n"
 
 INT_TY = {16: ("u16", "i16"), 32: ("u32", "i32"), 64: ("u64", "i64")}
@@ -244,6 +245,83 @@ impl Case for C{k} {{
     return "\n".join(src)
 
 
+def parse_enum(path, name):
+    """Variants of a fieldless `#[repr(uN)]` enum with explicit discriminants and an optional catch-all, from its source."""
+    src = open(path).read()
+    body = src[src.index(f"pub enum {name}"):]
+    body = body[:body.index("\n}")]
+    import re as _re
+    vs = [(m.group(1), int(m.group(2), 0)) for m in _re.finditer(r"^\s*([A-Z]\w*)\s*=\s*(0x[0-9a-fA-F]+|\d+)\s*,", body, _re.M)]
+    ca = _re.search(r"#\[wire\(catch_all\)\]\s*([A-Z]\w*)\((u8|u16)\)", body)
+    return vs, (ca.group(1) if ca else None), (ca.group(2) if ca else ("u16" if "repr(u16)" in src[:src.index(f"pub enum {name}")][-200:] else "u8"))
+
+
+def generate_incrate(repo):
+    """The crate's own wire types that an application can name: two enums (from their declarations) and the identity."""
+    out = ["// generated by checks/wirelayout.py - do not edit\n#![allow(clippy::all)]\nuse crate::{Rng, bv, guarded, tagv};\nuse serde_json::{Value, json};\n"]
+    calls = []
+    for name, path, w in (("SubDeviceState", "src/subdevice_state.rs", 8), ("AlStatusCode", "src/al_status_code.rs", 16)):
+        vs, ca, ty = parse_enum(os.path.join(repo, path), name)
+        E = dict(vs=[dict(d=d, alts=[]) for _, d in vs], catchAll=bool(ca), dflt=0)
+        L = [dict(w=w, pre=0, post=0, kind="enum", inner=[])]
+        arms = [f"        ethercrab::{name}::{v} => tagv(\"variant\", {i + 1})," for i, (v, _) in enumerate(vs)]
+        if ca:
+            arms.append(f"        ethercrab::{name}::{ca}(x) => tagv(\"catchall\", x as u64),")
+        fn = name.lower()
+        meta = json.dumps(dict(L=L, E=[E]))
+        nbytes = w // 8
+        out.append(f"""fn tag_{fn}(v: ethercrab::{name}) -> Value {{
+    match v {{
+{chr(10).join(arms)}
+    }}
+}}
+fn run_{fn}(rng: &mut Rng, out: &mut Vec<String>) {{
+    let meta: Value = serde_json::from_str(r#"{meta}"#).unwrap();
+    // every declared value, its neighbours, and seeded ones; exact, long and short buffers
+    let mut raws: Vec<u64> = vec![{', '.join(str(d) for _, d in vs)}];
+    for k in 0..raws.len() {{ raws.push(raws[k] + 1); raws.push(raws[k].wrapping_sub(1) & {(1 << w) - 1}); }}
+    for _ in 0..40 {{ raws.push(rng.next_u64() & {(1 << w) - 1}); }}
+    raws.push({(1 << w) - 1});
+    for (n, raw) in raws.iter().enumerate() {{
+        let mut buf = raw.to_le_bytes()[..{nbytes}].to_vec();
+        match n % 5 {{ 0 => buf.extend(rng.bytes(3)), 1 => {{ buf.truncate({nbytes - 1}); }} _ => {{}} }}
+        let r = guarded(|| <ethercrab::{name} as ethercrab_wire::EtherCrabWireRead>::unpack_from_slice(&buf));
+        let (res, fields) = match r {{
+            Ok(Ok(v)) => ("ok", json!([tag_{fn}(v)])),
+            Ok(Err(_)) => ("err", json!([])),
+            Err(_) => ("panic", json!([])),
+        }};
+        out.push(json!({{"id": format!("{name}-{{n}}"), "op": "unpack", "L": meta["L"], "E": meta["E"], "buf": bv(buf), "res": res, "fields": fields}}).to_string());
+    }}
+    let plen = <ethercrab::{name} as ethercrab_wire::EtherCrabWireSized>::PACKED_LEN;
+    let blen = <ethercrab::{name} as ethercrab_wire::EtherCrabWireSized>::buffer().as_ref().len();
+    out.push(json!({{"id": "{name}", "op": "buffer", "plen": plen, "item": {nbytes}, "n": 1, "buflen": blen}}).to_string());
+}}
+""")
+        calls.append(f"    run_{fn}(rng, out);")
+    # SubDevice identity: four little-endian 32 bit words (ETG1000.6 SII words 8..15)
+    metaI = json.dumps(dict(L=[dict(w=32, pre=0, post=0, kind="int", inner=[]) for _ in range(4)], E=[NOENUM] * 4))
+    out.append(f"""fn run_identity(rng: &mut Rng, out: &mut Vec<String>) {{
+    let meta: Value = serde_json::from_str(r#"{metaI}"#).unwrap();
+    for n in 0..30 {{
+        let len = match n % 5 {{ 0 => 16 + rng.below(5) as usize, 1 => rng.below(16) as usize, _ => 16 }};
+        let buf = match n % 3 {{ 0 => vec![0xffu8; len], _ => rng.bytes(len) }};
+        let r = guarded(|| <ethercrab::SubDeviceIdentity as ethercrab_wire::EtherCrabWireRead>::unpack_from_slice(&buf));
+        let (res, fields) = match r {{
+            Ok(Ok(v)) => ("ok", json!([bv(v.vendor_id.to_le_bytes().to_vec()), bv(v.product_id.to_le_bytes().to_vec()),
+                                        bv(v.revision.to_le_bytes().to_vec()), bv(v.serial.to_le_bytes().to_vec())])),
+            Ok(Err(_)) => ("err", json!([])),
+            Err(_) => ("panic", json!([])),
+        }};
+        out.push(json!({{"id": format!("SubDeviceIdentity-{{n}}"), "op": "unpack", "L": meta["L"], "E": meta["E"], "buf": bv(buf), "res": res, "fields": fields}}).to_string());
+    }}
+}}
+""")
+    calls.append("    run_identity(rng, out);")
+    out.append("pub fn run(rng: &mut Rng, out: &mut Vec<String>) {\n" + "\n".join(calls) + "\n}\n")
+    return "\n".join(out)
+
+
 def generate(layouts, rnd):
     parts = ["// generated by checks/wirelayout.py - do not edit\n#![allow(clippy::all)]\n"
              "use crate::{Case, Rng, Sample, bv, guarded, tagv};\nuse serde_json::Value;\n"]
@@ -325,6 +403,8 @@ def run(pid, tier):
             layouts += extra
         with open(GEN, "w") as fh:
             fh.write(generate(layouts, rnd))
+        with open(os.path.join(os.path.dirname(GEN), "incrate.rs"), "w") as fh:
+            fh.write(generate_incrate(os.environ.get("VERIF_REPO", "/repo")))
         env = dict(os.environ, CARGO_NET_OFFLINE="true", RUSTUP_TOOLCHAIN="1.88.0")
         tb = time.time()
         b = subprocess.run(["cargo", "build", "--offline", "-q", "-p", "wiregen"], cwd=lib.HARNESS, env=env,
@@ -357,7 +437,7 @@ def run(pid, tier):
         with open(trace) as fh:
             for line in fh:
                 c = json.loads(line)
-                if c["op"] in ("buffer", "array_unpack"):
+                if c["op"] in ("buffer", "array_unpack") or "L" not in c:
                     distinct.add((c["op"], c["id"], c.get("res")))
                 elif c["op"] != "roundtrip":
                     distinct.add((c["op"], json.dumps(c["L"], sort_keys=True), c.get("res")))
@@ -392,12 +472,14 @@ def run(pid, tier):
                    known_findings_matched=verdict.known)
         lib.write_evidence(pid, tier, "model_checking", cov, [
             "Reference semantics = positional bit layout (WireLayout.tla Pack/Unpack) and Rust's rule for implicit discriminants (EnumDecode).",
-            "Generated field kinds: sub-byte u8, bool, u16..u64/i16..i64, [u8; N], enums with u8/u16 repr (explicit/implicit discriminants, alternatives, catch-all, default); structs of whole bytes without enums nested as a field of another struct (one level); the crate's own wire types are not generated.",
+            "Generated field kinds: sub-byte u8, bool, u16..u64/i16..i64, [u8; N], enums with u8/u16 repr (explicit/implicit discriminants, alternatives, catch-all, default); structs of whole bytes without enums nested as a field of another struct (one level); the crate's own wire types an application can name (SubDeviceState, AlStatusCode from their declarations, SubDeviceIdentity) are decoded from declared values, their neighbours and seeded buffers.",
         ], time.time() - t0, len(verdict.violations))
         return verdict.finish()
     finally:
         with open(GEN, "w") as fh:
             fh.write(STUB)
+        with open(os.path.join(os.path.dirname(GEN), "incrate.rs"), "w") as fh:
+            fh.write(STUB_INCRATE)
         lib.cleanup(wd)
 
 
